@@ -1,16 +1,28 @@
 """C13 -- Compaction changes space, never content (DESIGN.md section 5 C13, design.d/C13.md).
 
-S1  coq/Props/C13.v (model coq/Compact/Model.v, proofs coq/Compact/ModelP.v): relocation by any renaming map
-    preserves contents and shape; with a map closed under ancestors every named page moves and no old page
-    is overwritten; the guards refuse and leave everything unchanged.
-S2  guard situations (persistent / ephemeral savepoints, readers, pending non-durable commits) set up on the
-    real crate; the extracted `guard` predicts the answer of compact().
-S3  evaluated by the harness on the real crate: contents equal before / after every compact() call; data
-    table shape (pages per order) unchanged; no page leaked or owned twice, nothing pending afterwards
-    (H3); file never larger than before the compaction and never larger after a call that moved pages;
-    fixpoint within a bound; every crash image built from the compaction's own op stream reopens to the
-    unchanged contents with a consistent allocator; refusals change nothing.
-NOT proved, observed only: size and termination (see manifest text).
+S1  coq/Props/C13.v.  Compact/Model.v: relocation by any renaming map preserves contents and shape; with a map
+    closed under ancestors every named page moves and no old page is overwritten; the sequential guards refuse and
+    leave everything unchanged.  Compact/Guard.v: the guards as a step machine against a write transaction that was
+    already open (savepoints created / dropped at every step, commit / abort while compact() waits for the slot):
+    for EVERY interleaving compact() relocates only when nothing exists, holding the write slot.  Compact/Pass.v:
+    the pass loop on page positions: a progressing pass strictly decreases a well-founded measure, the loop
+    terminates, ends packed with the highest position not above the initial one, a verified checker for observed
+    passes.
+S2  (a) guard situations, sequential and forced through the H4 pause points (the object comes into existence before
+    the call / between the up-front checks / while compact() is parked before begin_write(); the writer ends before
+    or after compact() went to sleep on the slot; drops at every stop): the extracted step machine predicts
+    compact()'s answer; (b) every OBSERVED pass of every compact() call (page paths before / after, taken through
+    Database::verif_observer between compact()'s transactions): the extracted checker pass_okP accepts the observed
+    relocation of the data tables and the measure compares as the soundness theorem says; every pass without
+    progress is packed (extracted packedb for an order-0 highest page).
+S3  evaluated by the harness on the real crate: contents equal before / after every compact() call; data table
+    shape unchanged; no page leaked or owned twice, nothing pending afterwards (H3); file never larger than before
+    the compaction and never larger after a call that moved pages; every relocation target was free before its
+    pass; a bound on passes and on write transactions per call (non-termination is a finding, never a hang);
+    compact() never gets past its guards while an object it has to refuse exists; fixpoint within a bound of calls;
+    every crash image built from the compaction's own op stream reopens to the unchanged contents with a consistent
+    allocator; refusals change nothing.
+NOT proved, observed only: the length of the FILE (regions, buddy orders, commits' own pages, try_shrink).
 """
 import os
 import re
@@ -24,6 +36,8 @@ def _lines(ctx, name):
 
 
 KEYS = [("moved nothing left the file larger than it found it (tiny regions)", "c13-file-grew-noprogress-tiny-regions"),
+        ("went past its guards", "c13-not-refused"), ("the call does not finish", "c13-no-fixpoint"),
+        ("a page of the old version is overwritten", "c13-overwrite"),
         ("contents changed", "c13-contents"), ("recovered contents differ", "c13-crash-contents"),
         ("made the file larger", "c13-file-grew"), ("no fixpoint", "c13-no-fixpoint"),
         ("allocated != required", "c13-leak"), ("owned twice", "c13-double-owner"),
@@ -51,21 +65,6 @@ def analyse(ctx, n, only=None):
     res["evals"] = len(cases)
     res["samples"] = [{"situation": c, "implementation": a, "model": b} for c, a, b in list(zip(cases, impl, model))[:4]]
     cmd = "VERIF_SEED=%d VERIF_TIER=%s harness bin c13 %d <history>" % (ctx.seed, ctx.tier, n)
-    for i, c in enumerate(cases):
-        a = impl[i] if i < len(impl) else "<missing>"
-        b = model[i] if i < len(model) else "<missing>"
-        if a == b:
-            continue
-        h = c.split(" ")[0]
-        if b.endswith("none") is False and a.endswith("none"):
-            # the property itself: compact() must refuse while readers / savepoints exist
-            ctx.violation("c13-not-refused", "history %s: compact() ran although [%s] requires a refusal (%s)" % (h, c, b),
-                          {"history": int(h), "reproduce": cmd.replace("<history>", h), "situation": c, "implementation": a, "model": b})
-        elif b.endswith("none") and a.split(" ", 1)[1].startswith("err"):
-            ctx.violation("c13-refused-idle", "history %s: compact() refused on a database without readers or savepoints: %s" % (h, a),
-                          {"history": int(h), "reproduce": cmd.replace("<history>", h), "situation": c, "implementation": a, "model": b})
-        else:
-            res["s2"].append({"history": int(h), "situation": c, "implementation": a, "model": b})
     for l in _lines(ctx, "viol.txt"):
         h, what = l.split("\t", 1)
         w = what.split(" || ")[0]
@@ -78,6 +77,21 @@ def analyse(ctx, n, only=None):
         ctx.violation(key, "history %s: %s" % (h, parts[0]),
                       {"history": int(h), "reproduce": cmd.replace("<history>", h), "finding": parts[0],
                        "history_steps": parts[1].split(" ; ") if len(parts) > 1 else []})
+    for i, c in enumerate(cases):
+        a = impl[i] if i < len(impl) else "<missing>"
+        b = model[i] if i < len(model) else "<missing>"
+        if a == b:
+            continue
+        h = c.split(" ")[0]
+        if b.endswith("none") is False and a.endswith("none"):
+            # the property itself: compact() must refuse while readers / savepoints exist
+            ctx.violation("c13-not-refused", "history %s: compact() ran although [%s] requires a refusal (%s)" % (h, c, b),
+                          {"history": int(h), "reproduce": cmd.replace("<history>", h), "situation": c, "implementation": a, "model": b})
+        elif b.endswith("none") and a.split(" ", 1)[1].startswith("err") and " guard " in c:
+            ctx.violation("c13-refused-idle", "history %s: compact() refused on a database without readers or savepoints: %s" % (h, a),
+                          {"history": int(h), "reproduce": cmd.replace("<history>", h), "situation": c, "implementation": a, "model": b})
+        else:
+            res["s2"].append({"history": int(h), "situation": c, "implementation": a, "model": b})
     res["ok"] = True
     return res
 
@@ -101,7 +115,7 @@ def run(ctx):
     if not r["ok"]:
         s2_ok, detail = False, r["detail"]
     elif r["s2"]:
-        s2_ok, detail = False, {"guard_differences": r["s2"][:5], "count": len(r["s2"])}
+        s2_ok, detail = False, {"differences": r["s2"][:5], "count": len(r["s2"])}
     if (not s1["ok"] or not s2_ok) and not ctx.violations and r["ok"]:
         base, tried = ctx.seed, 0
         for k in range(1, 4 if ctx.quick else 8):
@@ -115,17 +129,23 @@ def run(ctx):
     cov = {
         "evaluations": r["evals"] + r.get("crash_images", 0), "distinct_nontrivial": r["nontrivial"],
         "rule": "random histories: grow (bulk inserts, big values, a hot multimap key), fragment (mostly deletions, range removals), durability None/Immediate mixed "
-                "so that pending frees and pending non-durable commits exist when compact() starts; guard situations; compact() until it reports no progress; "
-                "crash images cut from the op stream of the first compact() call; clean reopen and further transactions; evaluations = compact() calls + crash images; "
-                "non-trivial = distinct history in which compaction moved pages",
+                "so that pending frees and pending non-durable commits exist when compact() starts; guard situations, sequential and concurrent (forced schedules "
+                "through the H4 pause points); compact() stepped through its own transactions, every pass observed, until it reports no progress; "
+                "crash images cut from the op stream of the first compact() call; clean reopen and further transactions; evaluations = model/implementation "
+                "comparisons (guard answers, observed passes, packed fixpoints) + crash images; non-trivial = distinct history in which compaction moved pages",
         "samples": r["samples"], "traces_validated_against_impl": r["evals"], "input_distribution": r["stats"],
         "trusted_base": ["Coq 8.16.1 kernel + vm_compute", "harness/src/bin/c13.rs + harness/src/rvdb.rs", "extraction (ExtrOcamlBasic only) + ocaml/c13_driver.ml",
-                         "H3 hooks (allocator snapshot, page walk) for leak / shape oracles",
+                         "H3 hooks (allocator snapshot, page walk) for leak / shape oracles; H4 pause points + rv_harness::conc::Controller for the forced schedules; "
+                         "Database::verif_observer (page paths as compact_pages collects them) for the per-pass observations",
+                         "the pass model has order-0 pages and unbounded space: regions, buddy orders, the commits' own pages and try_shrink are outside it",
                          "the model's tree is abstract (page ids, payloads, children): byte-level pointer and checksum rewriting of the real relocate_helper is "
                          "validated by reading every table back, not proved"],
     }
     return ctx.finish("proof", cov,
-                      assumptions=["size ('never larger') and termination ('bounded passes') are observed per run, not proved",
+                      assumptions=["termination and the highest position at the end are proved for the position model (order-0 pages, unbounded space); the length of the "
+                                   "FILE ('never larger') is observed per run, and so is termination of the real call (bounded number of passes / transactions)",
+                                   "guard step model: while compact(&mut self) runs nothing can BEGIN (Rust borrow rules); the only concurrent actor is one write "
+                                   "transaction begun before the call, plus drops of existing objects",
                                    "crash safety of the commits compaction issues is C01's theorem; here crash images are sampled",
                                    "with regions of a few dozen pages a compact() call that moves nothing can leave the file larger than the previous call left it "
                                    "(never larger than before the compaction): counted as noprogress_call_regrew_file, see design.d/C13.md"],
